@@ -41,6 +41,13 @@ class ParserExec(HeapExec):
         super().__init__(*a, **kw)
         s.decl = {}
 
+    # ---- ghost hooks: unfoldings of recursively defined ghost functions over a list at the places where the list changes
+    def on_append(s, name, cur, new, v):
+        return []
+
+    def on_pop(s, name, cur, rest, top):
+        return []
+
     # ---- typed empty lists / declared local types
     def ann_elem(s, ann):
         txt = ast.unparse(ann)
@@ -73,6 +80,7 @@ class ParserExec(HeapExec):
             ln = z3.Length(cur.q)
             new = z3.FreshConst(cur.q.sort(), nm + "@app")
             p.pc += [new == z3.Concat(cur.q, z3.Unit(v)), z3.Length(new) == ln + 1, new[ln] == v]
+            p.pc += s.on_append(nm, cur.q, new, v)
             for j in list(getattr(s, "skolems", [])) + [ln - 1, ln - 2]:
                 p.pc.append(z3.Implies(z3.And(j >= 0, j < ln), new[j] == cur.q[j]))
             p.env[nm] = SeqV(new, cur.kind)
@@ -140,6 +148,7 @@ class ParserExec(HeapExec):
             rest = z3.FreshConst(cur.q.sort(), f.value.id + "@rest")
             top = cur.q[n - 1]
             p.pc += [cur.q == z3.Concat(rest, z3.Unit(top)), z3.Length(rest) == n - 1]
+            p.pc += s.on_pop(f.value.id, cur.q, rest, top)
             for j in list(getattr(s, "skolems", [])) + [n - 2, n - 3]:
                 p.pc.append(z3.Implies(z3.And(j >= 0, j < n - 1), rest[j] == cur.q[j]))
             p.env[f.value.id] = SeqV(rest, cur.kind)
